@@ -1,8 +1,8 @@
 """C18 translator: the data the warning machinery is driven by, read from the
 repo's CURRENT source with ast / tomllib (never imported, never executed).
 
-  codebasin/file_parser.py   FileParser.insert_directive_node: the `unhandled` list and the
-                             shape of the test guarding the warning
+  codebasin/file_parser.py   FileParser.insert_directive_node: the `unhandled` list (the test that
+                             uses it is LOGIC: modelled by hand, checked by the differential run)
   codebasin/_detail/logging.py  WarningAggregator.__init__: the (regex, message) pairs of the
                              MetaWarnings, in order; the message is split at its single "{}"
   codebasin/config.py        ArgumentParser.parse_args: the options registered for every compiler
@@ -80,8 +80,8 @@ def unhandled_list(repo):
             guard = ast.unparse(n.test)
     if found is None:
         raise ValueError("no `unhandled = [...]` in insert_directive_node")
-    if guard != "len(tokens) >= 2 and str(tokens[1]) not in unhandled":
-        raise ValueError(f"unexpected guard of the unrecognized-directive warning: {guard}")
+    if guard is None:
+        raise ValueError("no test mentions `unhandled`")
     return found
 
 
@@ -113,15 +113,6 @@ def meta_warnings(repo):
                 out.append((dot, lit, pre, post))
     if out is None:
         raise ValueError("self.meta_warnings not found")
-    # how a record is inspected
-    insp = find_func(tree, "MetaWarning", "inspect")
-    tests = [ast.unparse(n.test) for n in ast.walk(insp) if isinstance(n, ast.If)]
-    if tests != ["self.regex.search(record.msg)"]:
-        raise ValueError(f"MetaWarning.inspect tests {tests}")
-    filt = find_func(tree, "WarningAggregator", "filter")
-    tests = [ast.unparse(n.test) for n in ast.walk(filt) if isinstance(n, ast.If)]
-    if tests != ["record.levelno == logging.WARNING"]:
-        raise ValueError(f"WarningAggregator.filter tests {tests}")
     return out
 
 
